@@ -32,7 +32,7 @@ PerX == PM(WidthEdges) \cup {Z0, Z1, ZN(-1), ZN(51472), ZN(-51472), HalfPhi, ZNe
 PerPairs == {<<x, x ++ (k ** TwoPhi)>> : x \in PerX, k \in PerK} \cup {<<x, x -- ((x // TwoPhi) ** TwoPhi)>> : x \in PerX}
 Jobs_C09 ==
    FlatSeq([f \in 1..2 |-> LET op == <<"sin", "cos">>[f] IN
-      <<Sweep(op, "fx", ZNeg(TwoPhi), TwoPhi, NR(16, 1))>>
+      <<Sweep(op, "fx", ZNeg(TwoPhi) ++ ZN(Seed % 13), TwoPhi, NR(13, 1)), Sweep(op, "fx", ZNeg(TwoPhi), TwoPhi, NR(4099, 1))>>
       \o S2Q({Sweep(op, "fx", m -- ZN(48), m ++ ZN(48), 1) : m \in PhiMultiples})
       \o S2Q({Sweep(op, "fx", m -- ZN(2), m ++ ZN(2), 1) : m \in {ZNeg(TwoPhi) ++ ZN(2), TwoPhi -- ZN(2)}})
       \o S2Q({Pair(op \o "_pair", p[1], p[2]) : p \in {q \in PerPairs : (ZAbs(q[2]) \prec P(46))}})
@@ -43,7 +43,7 @@ TanPeriodK == {Z1, ZN(2), ZN(3), ZN(7), ZN(1000), ZN(1234567), P(40)}
 TanX == {x \in WidthEdges : Z0 \preceq x} \cup {P(50), P(58), P(59) -- Z1, P(59), P(59) ++ ZN(12345), P(60), P(61), P(61) ++ P(60), P(62) -- TwoPhi} \cup {Z0, Z1, ZN(100), ZN(25736), QuarterPhi -- Z1, QuarterPhi, QuarterPhi ++ Z1, ZN(65536), HalfPhi -- ZN(2), HalfPhi -- Z1, HalfPhi,
          HalfPhi ++ Z1, HalfPhi ++ ZN(2), ZN(150000), ZN(161220), ZN(161221), Phi -- Z1, Phi, Phi ++ Z1, ZN(205886), ZN(300000), TwoPhi, P(30), P(45) ++ ZN(77)}
 Jobs_C10 ==
-   <<Sweep("tan", "fx", ZNeg(Phi), Phi, NR(8, 1))>>
+   <<Sweep("tan", "fx", ZNeg(Phi) ++ ZN(Seed % 7), Phi, NR(7, 1))>>
    \o S2Q({Sweep("tan", "fx", m -- ZN(64), m ++ ZN(64), 1) : m \in {ZN(k) ** QuarterPhi : k \in (-4)..4}})
    \o S2Q({Call("tan", <<"fx">>, <<x>>) : x \in PM({HalfPhi ++ (k ** Phi) : k \in TanPeriodK} \cup {(HalfPhi ++ (k ** Phi)) ++ Z1 : k \in TanPeriodK}
                                                    \cup {(HalfPhi ++ (k ** Phi)) -- Z1 : k \in TanPeriodK} \cup TanX)})
@@ -60,7 +60,7 @@ AtanX == {Z0, Z1, ZN(2), ZN(65536), ZN(28671), ZN(28672), ZN(45055), ZN(45056), 
           P(46), DomLim -- Z1, ZN(57) ** P(40), ZN(58) ** P(40)}
 A2Lm == PM({Z0, Z1, ZN(2), ZN(255), ZN(65535), ZN(65536), ZN(65537), P(13), P(15), P(20), P(29), P(30), P(31), P(32), P(40), P(46), DomLim -- Z1})
 Jobs_C11 ==
-   <<Sweep("atan", "fx", Z0, P(20), NR(16, 1)), Sweep("atan", "fx", ZNeg(P(18)), Z0, NR(16, 1))>>
+   <<Sweep("atan", "fx", ZN(Seed % 13), P(20), NR(13, 1)), Sweep("atan", "fx", ZNeg(P(18)) ++ ZN(Seed % 17), Z0, NR(17, 1))>>
    \o S2Q({Sweep("atan", "fx", m -- ZN(40), m ++ ZN(40), 1) : m \in PM(AtanSeg)})
    \o Octaves("atan", 20, 46, NR(12, 256)) \o OctavesNeg("atan", 20, 46, NR(4, 64))
    \o S2Q({Call("atan", <<"fx">>, <<x>>) : x \in PM(AtanX)})
@@ -77,7 +77,7 @@ Jobs_C11 ==
 AsinX == PM({Z0, Z1, ZN(2), ZN(39321), ZN(39322), ZN(39323), ZN(32768), ZN(65535), ZN(65536), ZN(65534), ZN(60000)})
 AsinOut == PM({ZN(65537), ZN(65538), ZN(100000), P(20), P(32), P(47), Maxv, NaNv})
 Jobs_C12 ==
-   <<Sweep("asin", "fx", ZN(-65536 - 80), ZN(65536 + 80), NR(4, 1)), Sweep("acos", "fx", ZN(-65536 - 80), ZN(65536 + 80), NR(4, 1))>>
+   <<Sweep("asin", "fx", ZN(-65536 - 80 + (Seed % 3)), ZN(65536 + 80), NR(3, 1)), Sweep("acos", "fx", ZN(-65536 - 80 + ((Seed + 1) % 3)), ZN(65536 + 80), NR(3, 1))>>
    \o S2Q({Sweep(op, "fx", m -- ZN(40), m ++ ZN(40), 1) : op \in {"asin", "acos"}, m \in PM({ZN(39322), ZN(65536), Z0})})
    \o S2Q({Call(op, <<"fx">>, <<x>>) : op \in {"asin", "acos"}, x \in AsinX \cup AsinOut})
    \o S2Q({Pair("asin_pair", x, ZNeg(x)) : x \in AsinX})
